@@ -254,12 +254,6 @@ func runFuzz(c *Ctx, plan any) {
 	p := plan.(*confPlan)
 	w := newConfWorld(c)
 	x := &confExec{w: w, p: p}
-	// BIG frames exceed the server's 1 MiB read limit
-	for i := range p.Ops {
-		if p.Ops[i].Kind == "raw" && p.Ops[i].Raw == "BIG" {
-			p.Ops[i].Raw = `{"type":"chat","value":"` + strings.Repeat("x", 1100000) + `"}`
-		}
-	}
 	kicked := map[int]bool{}
 	for _, op := range p.Ops {
 		if op.Kind == "useraction" && op.Sub == "kick" {
